@@ -1,6 +1,7 @@
 /- Line protocol for the sampling-distribution model at `Float` (C++ side: harness/dist.cc).
    `<op> <params> | <script>`  →  `<sample(s)> <draws>` | `script-exhausted` | `bad-op` -/
 import CelerVerif.Model.Dist
+import CelerVerif.Model.DistEloss
 import CelerVerif.Num.F64
 import CelerVerif.Model.Util
 
@@ -10,6 +11,7 @@ open CelerVerif CelerVerif.Util
 /-- `Float` versions of the two extra primitives: libm `cbrt`; `cvttsd2si` -/
 instance : NumX Float where
   cbrt := Float.cbrt
+  pow := Float.pow
   truncI64 x :=
     if x != x || x >= 9223372036854775808.0 || x < -9223372036854775808.0 then -(2 ^ 63 : Int)
     else x.toInt64.toInt
@@ -33,6 +35,18 @@ def boolStr (b : Bool) : String := if b then "1" else "0"
 /-- C++ `bool → double` result of RejectionSampler printed as bits -/
 def boolHex (b : Bool) : String := if b then hx 1.0 else hx 0.0
 def joinSp (xs : List String) : String := " ".intercalate xs
+
+/-- HELPERDATA: eldens e-mass p-mass charge is_electron r_electron energy cutoff mean step -/
+def helperIn : List Nat → Option (HelperIn Float)
+  | [a, b, c, d, e, f, g, h, i, j] =>
+    if e > 1 then none else
+    some ⟨fl a, fl b, fl c, fl d, e == 1, fl f, fl g, fl h, fl i, fl j⟩
+  | _ => none
+
+/-- MATDATA: I logI f1 f2 E1 E2 logE1 logE2 -/
+def urbanMat : List Nat → UrbanMat Float
+  | [a, b, c, d, e, f, g, h] => ⟨fl a, fl b, ⟨fl c, fl d, fl e, fl f, fl g, fl h⟩⟩
+  | _ => default
 
 def runOp (op : String) (p : List Nat) (s : List Float) : String :=
   let fuel := 2 * s.length + 4
@@ -71,6 +85,30 @@ def runOp (op : String) (p : List Nat) (s : List Float) : String :=
     fin s (((elossGamma (fl m) (fl v)).sample fuel s).map fun (x, _, r) => (x, r)) hx
   | "elgauss", [m, sd] => fin s (elossGauss (fl m) (fl sd) fuel s) hx
   | "elgaussv", [m, v] => fin s (elossGauss (fl m) (Float.sqrt (fl v)) fuel s) hx
+  | "uparams", [_, a, b, c] =>
+    let q := urbanParams (fl a) (fl b) (fl c)
+    s!"{hx q.f1} {hx q.f2} {hx q.e1} {hx q.e2} {hx q.logE1} {hx q.logE2}"
+  | "helper", _ :: _ :: hd =>
+    (match helperIn hd with
+     | some i =>
+       let h := Helper.mk' i
+       s!"{h.model.toNat} {hx h.maxEnergy} {hx h.betaSq} {hx h.twoMebsgs} {hx h.bohrVar}"
+     | none => "bad-op")
+  | "urbanctor", [_, a0, a1, a2, a3, a4, a5, a6, a7, ml, em, tm, b2] =>
+    let u := Urban.mk' (urbanMat [a0, a1, a2, a3, a4, a5, a6, a7]) (fl ml) (fl em) (fl tm) (fl b2)
+    s!"{hx u.maxEnergy} {hx u.lossScaling} {hx u.be1} {hx u.be2} {hx u.xs1} {hx u.xs2} {hx u.xsIon}"
+  | "urban", [_, a0, a1, a2, a3, a4, a5, a6, a7, ml, em, tm, b2] =>
+    let u := Urban.mk' (urbanMat [a0, a1, a2, a3, a4, a5, a6, a7]) (fl ml) (fl em) (fl tm) (fl b2)
+    fin s (u.sample fuel s) hx
+  | "eloss", _ :: _ :: rest =>
+    if rest.length != 18 then "bad-op" else
+    (match helperIn (rest.take 10) with
+     | some i =>
+       let h := Helper.mk' i
+       match sampleEnergyLoss h (urbanMat (rest.drop 10)) fuel s with
+       | none => "script-exhausted"
+       | some (x, r) => s!"{h.model.toNat} {hx x} {s.length - r.length}"
+     | none => "bad-op")
   | _, _ => "bad-op"
 
 def driverStep (st : Unit) (line : String) : Unit × String :=
